@@ -165,7 +165,7 @@ def run_exec_case(case):
 
 
 def case_steps(case):
-    """[['import', [stmts]] | ['eval', expr]] — `steps` when the case interleaves pyimport steps and
+    """[['import', [stmts]] | ['eval', expr] | ['drop', key]] — `steps` when the case interleaves pyimport steps and
     !py evaluations, else one pyimport step (if any) followed by the expressions."""
     if case.get('steps'):
         return case['steps']
@@ -181,9 +181,10 @@ def _run_eval_case(case):
     before = snapshot(ctx)
     import_error = None
     srcs, raw, plain_now = [], [], []
-    sources_before = []          # per evaluation: the pyimport sources that ran before it, in order
-    ran = []
     for st in case_steps(case):
+        if st[0] == 'drop':
+            ctx.pop(st[1], None)          # the context loses a key (contextclear / pop / in-arg leaving scope)
+            continue
         if st[0] == 'import':
             ctx['pyImport'] = import_source(st[1])
             try:
@@ -191,11 +192,9 @@ def _run_eval_case(case):
             except Exception as e:   # noqa
                 import_error = import_error or e
             del ctx['pyImport']
-            ran.append(import_source(st[1]))
             continue
         src = L.render(st[1])
         srcs.append(src)
-        sources_before.append(list(ran))
         try:
             if import_error is not None:
                 raise import_error
@@ -208,26 +207,35 @@ def _run_eval_case(case):
     obs = finish(case, heap, ctx, raw, before, after)
     obs['src'] = srcs
     obs['pyimport_error'] = None if import_error is None else f'{type(import_error).__name__}: {import_error}'
-    # second oracle, plain Python: exec the import sources that preceded the expression, in order, into a
-    # fresh namespace, then eval the expression in a fresh {**that namespace, **dict(context)} — over a
-    # second copy of the case's objects so in-place mutations are replayed, not shared
+    # second oracle, plain Python scoping at the moment of each !py: replay the steps over a second copy
+    # of the case's objects (so in-place mutations are replayed, not shared); an evaluation execs the
+    # import sources seen so far, in order, into a fresh namespace and evals the expression in a fresh
+    # {**that namespace, **dict(context as it is now)} — context first, then imports, then builtins
     heap2, cdict2 = build(case)
     obs['oracle_import_error'] = None
-    pl = []
-    for src, imports in zip(srcs, sources_before):
+    pl, ran, keys_at_eval = [], [], []
+    for st in case_steps(case):
+        if st[0] == 'drop':
+            cdict2.pop(st[1], None)
+            continue
+        if st[0] == 'import':
+            ran.append(import_source(st[1]))
+            continue
         imp_ns = {}
         try:
-            for isrc in imports:
+            for isrc in ran:
                 exec(isrc, imp_ns)
         except Exception as e:   # noqa
             obs['oracle_import_error'] = f'{type(e).__name__}: {e}'
         imp_ns.pop('__builtins__', None)
         d = dict(imp_ns)
         d.update(cdict2)
+        keys_at_eval.append(sorted(cdict2))
         try:
-            pl.append(['ok', plain(eval(src, d))])
+            pl.append(['ok', plain(eval(L.render(st[1]), d))])
         except Exception as e:   # noqa
             pl.append(['err', type(e).__name__])
+    obs['oracle_ctx_keys_at_eval'] = keys_at_eval
     obs['plain_eval'] = pl
     obs['plain_results'] = plain_now
     return obs
